@@ -1,5 +1,14 @@
+//! Validator staking and emissions under hostile ledger workloads (C42).
+mod c42;
+
 fn main() {
     let args = rv_common::parse_args();
-    eprintln!("no check named {}", args.prop);
-    std::process::exit(2);
+    let code = match args.prop.as_str() {
+        "C42" => c42::run(&args),
+        other => {
+            eprintln!("rv-stake: no check named {other}");
+            2
+        }
+    };
+    std::process::exit(code);
 }
